@@ -79,6 +79,7 @@ import "github.com/plgd-dev/go-coap/v3/message"
 //@   ensures [payload] len(out.Payload) == len(m.Payload) && bytesEq(out.Payload, m.Payload)
 //@   ensures [opt-count] len(out.Options) == len(m.Options)
 //@   ensures [opt-ids] forall j int :: {out.Options[j].ID} 0 <= j && j < len(m.Options) ==> rawStart(udpOpts(data), j) == old(encLen(m.Options, j)) && rawStart(udpOpts(data), j + 1) == old(encLen(m.Options, j + 1)) && out.Options[j].ID == old(m.Options[j].ID)
+//@   ensures [opt-slices] forall j int :: {out.Options[j].ID} 0 <= j && j < len(m.Options) ==> rawStart(udpOpts(data), j) == old(encLen(m.Options, j)) && out.Options[j].Value == udpOpts(data)[old(encLen(m.Options, j) + 1 + hs(delta(m.Options, j)) + hs(len(m.Options[j].Value))) : old(encLen(m.Options, j) + optSize(m.Options, j))]
 //@   ensures [opt-values] forall j int :: {out.Options[j].ID} 0 <= j && j < len(m.Options) ==> rawStart(udpOpts(data), j) == old(encLen(m.Options, j)) && bytesEq(out.Options[j].Value, old(m.Options[j].Value))
 
 // VerifDecodeEncoded is a ghost function (see the contract above).
